@@ -727,10 +727,9 @@ theorem validate_before_wait_recover (H : Body → String) (s : State) (now : In
   have h4 := Guards_foldl (G := VG H) (fun _ => True) stepV vals
     (by
       intro acc x _ _
-      refine ⟨toCache acc.1.mem x.1 (Entry.ofCmp x.2 .received) .received now ++
-        processCore H (run acc.1 (toCache acc.1.mem x.1 (Entry.ofCmp x.2 .received) .received now))
-          x.1 { Entry.ofCmp x.2 .received with time := now } now, ?_, ?_, trivial⟩
-      · simp only [stepV, run_append, List.append_assoc]
+      refine ⟨recoverValOne H acc.1 now x, rfl, ?_, trivial⟩
+      rcases recoverValOne_cases H acc.1 now x with ⟨_, h⟩ | ⟨_, h⟩ <;> rw [h]
+      · exact Guards_of_notRFW H _ _ (by simp [notRFW])
       · apply Guards.append
         · exact Guards_of_notRFW H _ _ (toCache_notRFW _ _ _ _ _)
         · apply processCore_VG H _ _ _ _ _ rfl rfl
